@@ -230,3 +230,96 @@ def iterfieldconvert(h):
                 ctx.oblige('iterfieldconvert: the header is passed through unchanged, once; nothing after the last row',
                            z3.And(pre.len == 1, _t(row_eq(out_row(pre, 0), src_row(S, 0))), res.out.len == 0))
             h.explore(body)
+
+
+@vc('C19.iterfieldmap', functions=[MAPS + 'iterfieldmap', 'petl.util.base.Record.__init__'], props=['C19', 'C12', 'C02', 'C03'],
+    assumptions=['two output fields, each computed by an uninterpreted callback on the record (the callable form of a mapping)',
+                 'stateless-body rule (engine meta-theorem)'])
+def iterfieldmap(h):
+    for policy in POLICIES:
+        def body(ctx, policy=policy):
+            errorvalue = sym_cell('errorvalue')
+            fields = [('p', 'm1'), ('q', 'm2')]
+
+            def delta(ls, x, dout):
+                rec = rec_term(x)
+                o = out_row(dout, 0)
+                cells, nofail = [], []
+                for k, (f, name) in enumerate(fields):
+                    r, raises, exc = bi.ucall_terms(name, [rec])
+                    bad = exc if policy == 'inline' else as_v(errorvalue)
+                    cells.append(z3.Select(o.arr, k) == z3.If(raises, bad, r))
+                    nofail.append(z3.Not(raises))
+                spec = z3.And(dout.len == 1, o.len == len(fields), *cells)
+                if policy is True:
+                    spec = z3.And(spec, *nofail)
+                ctx.oblige('iterfieldmap(failonerror=%r): one output row per row, every cell = its mapping\'s value or what the policy prescribes for a failure' % (policy,), spec)
+            it = h.interp(ctx, loops={(MAPS + 'iterfieldmap', 1): LoopSpec(delta=delta, label='rows')})
+            mappings = bi.SDict()
+            for f, name in fields:
+                mappings.setitem(it, f, UCall(name))
+            S = sym_table(ctx, 'S', nmin=1)
+            # a mapping function is not itself one of the header values (otherwise it would be read as a field name)
+            hq = smt.fresh_int('hq')
+            hdr0 = src_row(S, 0)
+            for f, name in fields:
+                c = UCall(name).as_v_term()
+                ctx.facts.append(z3.ForAll([hq], z3.Not(smt.py_eq(c, z3.Select(hdr0.arr, hq)))))
+                ctx.facts.append(z3.ForAll([hq], z3.Not(smt.py_eq(z3.Select(hdr0.arr, hq), c))))
+            res = run_generator(it, closure_of(it, MAPS + 'iterfieldmap'), [S, mappings, policy, errorvalue])
+            if res.exc is not None:
+                inloop = getattr(ctx, 'in_iteration', None)
+                ctx.oblige('iterfieldmap(failonerror=%r): an exception escapes only under True, at the failing row, before that row is emitted' % (policy,),
+                           z3.And(z3.BoolVal(policy is True and inloop is not None and res.exc.kind == 'UserError'), res.out.len == 0))
+                return
+            if getattr(ctx, 'after_loop', None):
+                pre = ctx.pre_loop_out
+                ctx.oblige('iterfieldmap: header = the mapping\'s output fields, once; nothing after the last row', z3.And(pre.len == 1, out_row(pre, 0).len == len(fields), res.out.len == 0))
+        h.explore(body)
+
+
+@vc('C19.iterrowmapmany', functions=[MAPS + 'iterrowmapmany', 'petl.util.base.Record.__init__'], props=['C19', 'C03'],
+    assumptions=['rowgenerator(row) is modelled as an iterable that delivers some rows and may then fail at any point (also before the first)',
+                 'nested stateless-body rule: rows produced before a failure are each emitted (composition), then the policy applies'])
+def iterrowmapmany(h):
+    for policy in POLICIES:
+        def body(ctx, policy=policy):
+            gen_rows = z3.Function('gen_rows', V, smt.ARR)
+            gen_count = z3.Function('gen_count', V, z3.IntSort())
+
+            def rowgenerator(interp, args, kw, node):
+                rec = as_v(args[0])
+                ctx.assume(gen_count(rec) >= 0)
+                src = SrcIter(gen_rows(rec), gen_count(rec), 'generated rows')
+                src.may_fail = True
+                return src
+
+            def inner(ls, x, dout):
+                ctx.oblige('iterrowmapmany(failonerror=%r): every row the generator produces is emitted once, as a tuple of itself' % (policy,),
+                           z3.And(dout.len == 1, _t(row_eq(out_row(dout, 0), x))))
+
+            def outer(ls, x, dout):
+                fs = getattr(ctx, 'failed_segment', None)
+                if fs is not None and fs[0] == 'generated rows':
+                    seg = ctx.out            # what was emitted for this row AFTER its generator failed
+                    if policy == 'inline':
+                        one = out_row(seg, 0)
+                        ctx.oblige('iterrowmapmany(inline): after the rows produced so far exactly one more row is emitted, holding the exception object',
+                                   z3.And(seg.len == 1, one.len == 1))
+                    else:
+                        ctx.oblige('iterrowmapmany(failonerror=False): after the rows produced so far nothing more is emitted for the failing row', seg.len == 0)
+            from pyvc.interp import Builtin
+            it = h.interp(ctx, loops={(MAPS + 'iterrowmapmany', 0): LoopSpec(delta=outer, label='rows'),
+                                      (MAPS + 'iterrowmapmany', 1): LoopSpec(delta=inner, label='generated rows')})
+            it.check_pulls = False
+            S = sym_table(ctx, 'S', nmin=1)
+            res = run_generator(it, closure_of(it, MAPS + 'iterrowmapmany'), [S, Builtin('rowgenerator', rowgenerator), sym_seq(ctx, 'header', 'tuple'), policy])
+            tr = it.trace
+            failed = [e for e in tr if e[0] == 'except']
+            if res.exc is not None:
+                ctx.oblige('iterrowmapmany(failonerror=%r): an exception escapes only under True (the generator\'s own failure)' % (policy,),
+                           z3.BoolVal(policy is True and res.exc.kind == 'SourceError'))
+                return
+            if failed:
+                ctx.oblige('iterrowmapmany(failonerror=%r): a failing generator is not re-raised under this policy' % (policy,), z3.BoolVal(policy is not True))
+        h.explore(body)
